@@ -1855,6 +1855,14 @@ def known_switch_value(e):
     if e.k == "un" and e.a[0] == "Not":
         v = known_switch_value(e.a[1])
         return None if v is None else int(not v)
+    if e.k == "bin" and e.a[0] in ("Eq", "Ne"):
+        # `discriminant(<a literal Ordering>) == 0`: Equal is 0 (the other two are ∓1 in a width-dependent encoding, never compared here)
+        for x_, y_ in ((e.a[1], e.a[2]), (e.a[2], e.a[1])):
+            x_, y_ = strip_refs(x_), strip_refs(y_)
+            if x_.k == "discr" and y_.k == "const" and y_.a[0][0] == "int" and int(y_.a[0][1]) == 0:
+                o_ = strip_refs(x_.a[0])
+                if o_.k == "agg" and isinstance(o_.t, dict) and o_.t.get("adt") == "std::cmp::Ordering" and "variant" in o_.t:
+                    return int((o_.t["variant"] == "Equal") == (e.a[0] == "Eq"))
     if e.k == "bin" and e.a[0] in ("Eq", "Ne", "Lt", "Le", "Gt", "Ge"):
         l, r = known_switch_value(e.a[1]), known_switch_value(e.a[2])
         if l is not None and r is not None:
